@@ -3,6 +3,9 @@ import DryocVerif.Model.Utils
 import DryocVerif.Proofs.Blake2bMain
 import DryocVerif.Proofs.Core
 import DryocVerif.Proofs.GenPoly1305
+import DryocVerif.Proofs.GenSipHash
+import DryocVerif.Proofs.GenCore
+import DryocVerif.Proofs.GenBlake2b
 /-
 C07 — hash, MAC and core primitives equal their specifications on every input.
 Property theorems only; helper lemmas live in `DryocVerif/Proofs`.
@@ -315,5 +318,54 @@ theorem translated_poly1305_finish (h : Model.Poly1305.Limbs) (pad0 pad1 : Nat) 
 theorem translated_poly1305_mac_eq_spec (key msg : Bytes) (hk : key.length = 32) :
     Proofs.GenPoly1305.macGen key msg = Spec.Poly1305.mac key msg := by
   rw [← Proofs.GenPoly1305.mac_eq_gen]; exact Proofs.Poly1305.mac_model_eq_spec key msg hk
+
+/-- `siphash24.rs` as translated (initialisation, the chunk loop, the tail-byte loop, the finalisation rounds) = the model,
+for every key and input -/
+theorem translated_siphash24 (key input : Bytes) :
+    Model.Core.siphash24 key input = toLE 8 (Gen.SipHash.siphash24 input key) :=
+  Proofs.GenSipHash.siphash24_eq_model key input
+
+/-- hence the translated SipHash is SipHash-2-4 for every 16-byte key and every message -/
+theorem translated_siphash24_eq_spec (key msg : Bytes) (hk : key.length = 16) :
+    toLE 8 (Gen.SipHash.siphash24 msg key) = Spec.SipHash.siphash24 key msg := by
+  rw [← Proofs.GenSipHash.siphash24_eq_model]; exact Proofs.Core.siphash24_eq_spec key msg hk
+
+/-- `crypto_core_hchacha20` as translated (word loading, ten double rounds, the output layout) = the model,
+for every key, input, optional constants and every 32-byte output buffer -/
+theorem translated_hchacha20 (out key inp : Bytes) (c : Option (UInt32 × UInt32 × UInt32 × UInt32))
+    (hout : out.length = 32) :
+    Gen.Core.crypto_core_hchacha20 out inp key (c.map Proofs.GenCore.toN4) = Model.Core.hchacha20 key inp c :=
+  Proofs.GenCore.hchacha20_eq_model out key inp c hout
+
+/-- `crypto_core_hsalsa20` as translated = the model -/
+theorem translated_hsalsa20 (out key inp : Bytes) (c : Option (UInt32 × UInt32 × UInt32 × UInt32))
+    (hout : out.length = 32) :
+    Gen.Core.crypto_core_hsalsa20 out inp key (c.map Proofs.GenCore.toN4) = Model.Core.hsalsa20 key inp c :=
+  Proofs.GenCore.hsalsa20_eq_model out key inp c hout
+
+/-- hence the translated HSalsa20 / HChaCha20 equal their specifications for every 32-byte key and 16-byte input -/
+theorem translated_hsalsa20_eq_spec (out key inp : Bytes) (hout : out.length = 32) (hk : key.length = 32) (hi : inp.length = 16) :
+    Gen.Core.crypto_core_hsalsa20 out inp key none = Spec.Salsa20.hsalsa20 key inp := by
+  have h := Proofs.GenCore.hsalsa20_eq_model out key inp none hout
+  simp only [Option.map_none] at h
+  rw [h]; exact Proofs.Core.hsalsa20_eq_spec key inp hk hi
+
+/-- the constant tables of `blake2b_soft.rs` as extracted from the source are the model's -/
+theorem translated_blake2b_tables :
+    Gen.Blake2b.IV = Model.Blake2b.IV.toList.map (·.toNat) ∧ Gen.Blake2b.SIGMA = Model.Blake2b.SIGMA.toList.map (·.toList) :=
+  ⟨Proofs.GenBlake2b.IV_eq_model, Proofs.GenBlake2b.SIGMA_eq_model⟩
+
+/-- `blake2b_soft.rs::compress` as translated (message loading, the IV/counter/flag setup, all 12 rounds of 8 `G`s with
+their message-word indices, the feed-forward) = the model, for every state, counter, flags and block -/
+theorem translated_blake2b_compress (sh : Array UInt64) (hs : sh.size = 8) (t0 t1 f0 f1 : UInt64) (block : Bytes) :
+    Gen.Blake2b.compress sh[0]!.toNat sh[1]!.toNat sh[2]!.toNat sh[3]!.toNat sh[4]!.toNat sh[5]!.toNat sh[6]!.toNat sh[7]!.toNat
+      t0.toNat t1.toNat f0.toNat f1.toNat block = Proofs.GenBlake2b.out8 (Model.Blake2b.compress sh t0 t1 f0 f1 block) :=
+  Proofs.GenBlake2b.compress_eq_model sh hs t0 t1 f0 f1 block
+
+/-- `increment_counter` as translated = the model (128-bit counter in two words), for every increment -/
+theorem translated_blake2b_increment_counter (t0 t1 : UInt64) (inc : Nat) :
+    Gen.Blake2b.increment_counter t0.toNat t1.toNat inc =
+      ((Model.Blake2b.incrementCounter t0 t1 inc).1.toNat, (Model.Blake2b.incrementCounter t0 t1 inc).2.toNat) :=
+  Proofs.GenBlake2b.increment_counter_eq_model t0 t1 inc
 
 end DryocVerif.Properties.C07
